@@ -28,7 +28,10 @@ RULE = ("(a) all ordered pairs (min<=max) over {-128.5,-1.5,-0.5,0,0.4,0.5,"
         "'raw' with a decoy X} x round_to_int {True, False}; (b) all gene "
         "name sequences of length <= K over {Ensembl id, id.version, second "
         "id, known symbol, symbol mapping to the first id, unknown, unknown2, "
-        "''}; (c) duplicate cell ids.  distinct_nontrivial = distinct "
+        "''}; (c) duplicate cell ids; (d) one mapper object validating every "
+        "ordered pair (thorough: also triple) of files whose gene lists are "
+        "the permutations of 2 (thorough: 2-3) of {id, known symbol, unknown, unknown2}, "
+        "each output judged as if its file had been validated alone.  distinct_nontrivial = distinct "
         "(matrix, layout, flags) / name sequences for which an output file "
         "was produced and compared")
 ASSUMPTIONS = [
@@ -43,6 +46,7 @@ VALUES = [-128.5, -1.5, -0.5, 0.0, 0.4, 0.5, 1.5, 2.5, 127.5, 254.5, 255.5,
           32767.5, 65535.5, 2.0 ** 31 - 0.5]
 GENES = ['ENSMUSG00000000001', 'ENSMUSG00000000002.7', 'ENSMUSG00000000003',
          'sym_known', 'sym_to_first', 'unknown_a', 'unknown_b', '']
+HIST_GENES = [0, 3, 5, 6]     # id, known symbol, two unknown names
 TABLE = {'sym_known': 'ENSMUSG00000000099',
          'sym_to_first': 'ENSMUSG00000000001'}
 
@@ -65,18 +69,39 @@ def cases(tier, seed):
     for i in range(0, len(seqs), 40):
         yield {'kind': 'genes', 'seqs': seqs[i:i + 40], 'seed': seed}
     yield {'kind': 'cells', 'seed': seed}
+    # one mapper object validating a SEQUENCE of files: every ordered pair
+    # (thorough: triple) of name lists, each judged as if validated alone
+    lists = [list(s) for k in (2, 3) for s in
+             itertools.permutations(HIST_GENES, k)]
+    lists = [x for x in lists if expected_names(
+        [GENES[i] for i in x])[0] == 'ok']
+    short = [i for i, x in enumerate(lists) if len(x) == 2]
+    if tier == 'thorough':
+        hist = [list(h) for h in itertools.product(range(len(lists)),
+                                                   repeat=2)]
+        hist += [list(h) for h in itertools.product(short, repeat=3)]
+    else:
+        hist = [list(h) for h in itertools.product(short, repeat=2)]
+    for i in range(0, len(hist), 60):
+        yield {'kind': 'history', 'lists': lists, 'hist': hist[i:i + 60],
+               'seed': seed}
 
 
 def sha(path):
     return hashlib.sha256(open(path, 'rb').read()).hexdigest()
 
 
-def run_validate(src, out_dir, tmp, layer, round_to_int):
-    from cell_type_mapper.validation.validate_h5ad import validate_h5ad
+def new_mapper():
     from cell_type_mapper.gene_id.gene_id_mapper import GeneIdMapper
+    return GeneIdMapper(data=dict(TABLE))
+
+
+def run_validate(src, out_dir, tmp, layer, round_to_int, mapper=None):
+    from cell_type_mapper.validation.validate_h5ad import validate_h5ad
     import warnings
     warnings.filterwarnings('ignore')
-    mapper = GeneIdMapper(data=dict(TABLE))
+    if mapper is None:
+        mapper = new_mapper()
     return validate_h5ad(h5ad_path=src, output_dir=out_dir,
                          gene_id_mapper=mapper, tmp_dir=tmp, layer=layer,
                          round_to_int=round_to_int, expected_max=None)
@@ -180,7 +205,7 @@ def evaluate(case, scratch):
     from mc import common
 
     def one(mat, names, enc, chunks, layer, round_to_int, obs_ids, tag,
-            expect_names=None):
+            expect_names=None, mapper=None, note=''):
         nonlocal n, sample
         src = d / f'in_{tag}.h5ad'
         decoy = np.full(mat.shape, 3.0)       # small-range decoy X
@@ -193,14 +218,15 @@ def evaluate(case, scratch):
         out_dir.mkdir()
         tmp.mkdir()
         desc = (f'matrix={mat.tolist()} genes={names} {enc} chunks={chunks} '
-                f'layer={layer} round_to_int={round_to_int}')
+                f'layer={layer} round_to_int={round_to_int}{note}')
         status, exp = expected_names(names)
         if len(set(obs_ids)) != len(obs_ids):
             status, exp = 'error', 'duplicate cell ids'
         err = None
         res = None
         try:
-            res = run_validate(src, out_dir, tmp, layer, round_to_int)
+            res = run_validate(src, out_dir, tmp, layer, round_to_int,
+                               mapper=mapper)
         except Exception as e:
             err = f'{type(e).__name__}: {str(e)[:300]}'
         common.close_leaked_h5()
@@ -274,6 +300,19 @@ def evaluate(case, scratch):
             m = mat[:, :len(names)]
             one(m, names, ['dense', 'csr', 'csc'][si % 3], None, 'X',
                 bool(si % 2), ['c0', 'c1'], f'g{si}')
+    elif case['kind'] == 'history':
+        mat = np.array([[1.0, 2.0, 0.0], [0.0, 5.0, 6.0]])
+        for hi, h in enumerate(case['hist']):
+            mapper = new_mapper()
+            seen = []
+            for step, li in enumerate(h):
+                names = [GENES[i] for i in case['lists'][li]]
+                one(mat[:, :len(names)], names,
+                    ['dense', 'csr', 'csc'][(hi + step) % 3], None, 'X',
+                    False, ['c0', 'c1'], f'h{hi}_{step}', mapper=mapper,
+                    note=(f' (file {step + 1} of one mapper object; '
+                          f'earlier files had genes {seen})'))
+                seen.append(names)
     else:
         mat = np.array([[1.0, 2.5], [0.0, 5.0], [7.0, 0.0]])
         for ids in (['a', 'b', 'a'], ['a', 'a', 'a'], ['x', 'y', 'z']):
